@@ -1,7 +1,7 @@
 (* C15 (part 3): assembly peephole rewrites preserve results (model C15/Peephole.v, tied to
    vyper/evm/assembler/optimizer.py by exact output equality on generated and compiled assemblies). *)
 From Coq Require Import ZArith List String Lia.
-From Verif Require Import Base.Word256 Base.PyInt C15.Peephole C15.PeepholeSound.
+From Verif Require Import Base.Word256 Base.PyInt C15.Peephole C15.PeepholeSound C15.JumpOpt C15.JumpSem C15.JumpSound C15.JumpSound2.
 Import ListNotations.
 Open Scope Z_scope.
 
@@ -28,8 +28,46 @@ Theorem iszero_chain_sound :
 Proof. split; [exact iszero_chain_after | split; [exact ret01_modelled | exact iszero_iszero_truthy]]. Qed.
 Print Assumptions iszero_chain_sound.
 
+(* ---- the jump-related passes, on a labelled-program semantics (JumpSem.v: code suffix + stack, jumps look the
+   label up in the whole program, label values live on the stack, every other instruction is an arbitrary partial
+   stack transformer).  [sound_rel other P P']: whenever P halts (from its start, on a stack without label values),
+   P' halts with the same halting instruction and the same observable stack. ---- *)
+Theorem prune_unreachable_sound_thm :
+  forall other P, sound_rel other P (prune_unreachable P).
+Proof. exact prune_unreachable_sound. Qed.
+Theorem inefficient_jump_sound :
+  forall other P, NoDup (labels P) ->
+    sound_rel other P (prune_inefficient_jumps P) /\ sound_rel other P (optimize_inefficient_jumps P).
+Proof. intros other P ND. split; [apply prune_inefficient_jumps_sound | apply optimize_inefficient_jumps_sound]; exact ND. Qed.
+(* _merge_iszero, pass level; hypothesis: the members of _RETURNS_ZERO_OR_ONE other than ISZERO leave 0 or 1 *)
+Theorem merge_iszero_pass_sound :
+  forall other,
+    (forall o st st', is_ret01 (Op o) = true -> String.eqb o "ISZERO" = false ->
+       other (Op o) st = Some st' -> exists v t, st' = SV v :: t /\ (v = 0 \/ v = 1)) ->
+    forall P out, merge_iszero P = Ok out -> sound_rel other P out.
+Proof. exact merge_iszero_sound. Qed.
+(* _merge_jumpdests; hypothesis: instructions do not look at the names of label values *)
+Theorem merge_jumpdests_sound_thm :
+  forall other,
+    (forall x y it st, other it (rs x y st) = option_map (rs x y) (other it st)) ->
+    forall P, NoDup (labels P) -> sound_rel other P (snd (merge_jumpdests P)).
+Proof. exact merge_jumpdests_sound. Qed.
+(* _prune_unused_jumpdests (labels used by PUSHLABEL, PUSH_OFST and data items are kept); hypothesis: a label value
+   on the stack was on the stack before or is pushed by the instruction itself *)
+Theorem prune_unused_jumpdests_sound_thm :
+  forall other P,
+    (forall it st st' l, other it st = Some st' -> In (SL l) st' -> In (SL l) st \/ uses l it = true) ->
+    sound_rel other P (prune_unused_jumpdests P).
+Proof. exact prune_unused_jumpdests_sound. Qed.
+Print Assumptions merge_jumpdests_sound_thm.
+Print Assumptions prune_unused_jumpdests_sound_thm.
+
 Example peephole_nonvacuous :
   stack_peephole [Op "DUP1"; Op "SWAP2"; Op "SWAP1"; Op "SWAP3"; Op "SWAP3"; Op "SWAP1"; Op "ADD"; Op "POP"]
     = Ok [Op "SWAP1"; Op "DUP2"; Op "ADD"; Op "POP"] /\
-  exec (fun _ _ => None) [Op "DUP1"; Op "SWAP2"; Op "SWAP1"] [1; 2; 3] = Some [1; 2; 1; 3].
-Proof. split; vm_compute; reflexivity. Qed.
+  exec (fun _ _ => None) [Op "DUP1"; Op "SWAP2"; Op "SWAP1"] [1; 2; 3] = Some [1; 2; 1; 3] /\
+  optimize_assembly [PushLbl "c"; Op "JUMPI"; PushLbl "x"; Op "JUMP"; Lbl "c"; Op "STOP"; Op "POP"; Lbl "x"; Lbl "y"; Op "INVALID"]
+    = Ok [Op "ISZERO"; PushLbl "y"; Op "JUMPI"; Op "STOP"; Lbl "y"; Op "INVALID"] /\
+  run (fun _ st => Some st) [PushLbl "a"; Op "JUMP"; Lbl "a"; Op "STOP"] 5
+      [PushLbl "a"; Op "JUMP"; Lbl "a"; Op "STOP"] [] = Halted "STOP" [].
+Proof. repeat split; vm_compute; reflexivity. Qed.
